@@ -135,6 +135,10 @@ def run(ctx):
             ob_failed.append("coqchk did not confirm an axiom-free development: " + coqchk)
         ctx.log("coqchk:", "ok, no axioms" if rc_chk == 0 and "Axioms: <none>" in coqchk else coqchk)
 
+    replay_kind = None
+    if ctx.replay:
+        _rp = json.load(open(ctx.replay))
+        replay_kind = (_rp.get("replay", _rp) or {}).get("kind")
     hb, hlog = ctx.build_harness("c08")
     meta = {}
     model_bad = []      # (kind, case)
@@ -142,6 +146,8 @@ def run(ctx):
     branches = collections.Counter()
     if hb is None:
         ob_failed.append("harness does not build against the source tree: " + hlog[-800:])
+    elif replay_kind == "race":
+        meta = {"kinds": []}
     else:
         args = [hb, "-seed", str(ctx.seed), "-tier", ctx.tier, "-out", ctx.work]
         if ctx.replay:
@@ -156,6 +162,7 @@ def run(ctx):
             ob_failed.append("harness failed: " + out[-800:])
         else:
             meta = json.load(open(os.path.join(ctx.work, "meta.json")))
+            meta["kinds"] = meta.get("kinds") or []
             ctx.log("harness: %d reader, %d v2-sweep, %d token, %d connection, %s e2e cases" % (
                 meta.get("reader_cases", 0), meta.get("v2_sweep_cases", 0), meta.get("token_cases", 0),
                 meta.get("conn_cases", 0), (meta.get("e2e") or {}).get("cases", 0)))
@@ -194,6 +201,30 @@ def run(ctx):
         ctx.violation(key, case, True,
                       "%d observations of the implementation fail the C08 oracle this way; smallest input (%d bytes): %r%s"
                       % (len(lst), n, case_bytes(case)[:80], (" note=" + case.get("note")) if case.get("note") else ""))
+    # ---- thorough: the connection-level probes (concurrent RemoteAddr/LocalAddr/Read callers) under the race detector
+    race = None
+    if ((ctx.tier == "thorough" and not ctx.replay) or replay_kind == "race") and hb is not None:
+        modfile = os.path.join(ctx.work, "go.mod")
+        rbin = os.path.join(ctx.work, "harness-c08-race")
+        env = common.go_env()
+        env["CGO_ENABLED"] = "1"
+        rc_b, out_b = common.sh([common.go_cmd(), "build", "-race", "-modfile=" + modfile, "-tags", "verif", "-o", rbin, "./cmd/c08"],
+                                cwd=os.path.join(common.VERIF, "harness"), env=env, timeout=900)
+        if rc_b != 0:
+            race = {"built": False, "log": out_b[-300:]}
+            ctx.notes.append({"race_build_failed": out_b[-300:]})
+        else:
+            rdir = os.path.join(ctx.work, "race")
+            rc_r, out_r = common.sh([rbin, "-only", "conn", "-tier", "thorough", "-seed", str(ctx.seed), "-out", rdir], timeout=900)
+            n_races = out_r.count("WARNING: DATA RACE")
+            rmeta = json.load(open(os.path.join(rdir, "meta.json"))) if os.path.exists(os.path.join(rdir, "meta.json")) else {}
+            race = {"built": True, "exit": rc_r, "data_races": n_races, "conn_observations": rmeta.get("conn_cases")}
+            ctx.log("race detector on the connection probes: %d reports, exit %d" % (n_races, rc_r))
+            if n_races or rc_r != 0:
+                i = out_r.find("WARNING: DATA RACE")
+                ctx.violation("data-race-in-conn", {"kind": "race", "report": out_r[i:i + 1500] if i >= 0 else out_r[-800:]}, True,
+                              "the Go race detector reported %d data races while concurrent callers used one proxyproto.Conn" % n_races)
+
     # ---- header timeout probes (tested with tolerances, not proved)
     e2e_meta = meta.get("e2e") or {}
     to_ms = 400
@@ -264,6 +295,7 @@ def run(ctx):
         ]),
         "theorems": info["theorems"],
         "coqchk": coqchk,
+        "race_detector": race,
         "unchecked_obligations": ob_failed,
         "evaluations": evaluations,
         "distinct_nontrivial": nontriv,
